@@ -15,6 +15,8 @@ SPECS = [  # (label, right table name, right descr, on argument source, on_a, on
     ("diffkey", "k", K, "[('g', 'k')]", ["g"], ["k"]),
     ("shared", "f", F, "['g']", ["g"], ["g"]),
     ("twokeys", "f", F, "['g', 'x']", ["g", "x"], ["g", "x"]),
+    # differently named keys where the LEFT key's name is also an ordinary column of the right table (employee / manager style schema)
+    ("diffkey_shadow", "s", progs.S, "[('g', 'k')]", ["g"], ["k"]),
 ]
 JOINTYPES = ["inner", "left", "right", "full"]
 
